@@ -108,6 +108,10 @@ class Schema:
 
     # ----------------------------------------------------------- classes
     def class_id(self, qual):
+        if qual not in self._ids:
+            # a class the specifications refer to is no longer in /repo (renamed or removed): the functions whose contracts
+            # need it are outside the verifier's reach on this tree - not a checker error
+            raise Unsupported("class %s referred to by a specification is not defined in /repo" % qual)
         return self._ids[qual]
 
     def subclass_ids(self, prog, ci):
